@@ -420,6 +420,110 @@ func (g *gen) chain() []*spb.AFTOperation {
 	return ops
 }
 
+// shape emits one of the multi-step dependency shapes the properties single out
+// (held REPLACE whose target is deleted, retargeting replaces across instances,
+// group replaced by one with an overlapping next-hop set, delete and re-add of
+// dependencies in reverse order). Operations come back grouped into requests.
+func (g *gen) shape() [][]*spb.AFTOperation {
+	ni, other := g.ni(), g.ni()
+	nhA, nhB, nhC := uint64(1+g.pick(4)), uint64(1+g.pick(4)), uint64(1+g.pick(4))
+	gA, gB := uint64(1+g.pick(4)), uint64(1+g.pick(4))
+	add := func(ni string, e *spb.AFTOperation) *spb.AFTOperation { e.Id, e.NetworkInstance = g.id(), ni; return e }
+	nh := func(ni string, i uint64) *spb.AFTOperation {
+		return add(ni, &spb.AFTOperation{Op: spb.AFTOperation_ADD, Entry: &spb.AFTOperation_NextHop{NextHop: g.nhPayload(i)}})
+	}
+	grp := func(ni string, id uint64, op spb.AFTOperation_Operation, nhs ...uint64) *spb.AFTOperation {
+		gr := &aftpb.Afts_NextHopGroup{}
+		for _, n := range nhs {
+			gr.NextHop = append(gr.NextHop, &aftpb.Afts_NextHopGroup_NextHopKey{Index: n, NextHop: &aftpb.Afts_NextHopGroup_NextHop{Weight: u(g.mark())}})
+		}
+		return add(ni, &spb.AFTOperation{Op: op, Entry: &spb.AFTOperation_NextHopGroup{NextHopGroup: &aftpb.Afts_NextHopGroupKey{Id: id, NextHopGroup: gr}}})
+	}
+	kind := []Kind{KV4, KV6, KMPLS}[g.pick(3)]
+	top := func(ni string, op spb.AFTOperation_Operation, nhg uint64, nhgNI *wpb.StringValue, like *spb.AFTOperation) *spb.AFTOperation {
+		e := g.entry(op, kind, ni)
+		if like != nil { // same key as an earlier entry
+			switch t := e.Entry.(type) {
+			case *spb.AFTOperation_Ipv4:
+				t.Ipv4.Prefix = like.GetIpv4().GetPrefix()
+			case *spb.AFTOperation_Ipv6:
+				t.Ipv6.Prefix = like.GetIpv6().GetPrefix()
+			case *spb.AFTOperation_Mpls:
+				t.Mpls.Label = like.GetMpls().GetLabel()
+			}
+		}
+		switch t := e.Entry.(type) {
+		case *spb.AFTOperation_Ipv4:
+			if t.Ipv4.Ipv4Entry != nil {
+				t.Ipv4.Ipv4Entry.NextHopGroup, t.Ipv4.Ipv4Entry.NextHopGroupNetworkInstance = u(nhg), nhgNI
+			}
+		case *spb.AFTOperation_Ipv6:
+			if t.Ipv6.Ipv6Entry != nil {
+				t.Ipv6.Ipv6Entry.NextHopGroup, t.Ipv6.Ipv6Entry.NextHopGroupNetworkInstance = u(nhg), nhgNI
+			}
+		case *spb.AFTOperation_Mpls:
+			if t.Mpls.LabelEntry != nil {
+				t.Mpls.LabelEntry.NextHopGroup, t.Mpls.LabelEntry.NextHopGroupNetworkInstance = u(nhg), nhgNI
+			}
+		}
+		return e
+	}
+	del := func(e *spb.AFTOperation) *spb.AFTOperation {
+		d := proto.Clone(e).(*spb.AFTOperation)
+		d.Id, d.Op = g.id(), spb.AFTOperation_DELETE
+		if g.chance(1, 2) {
+			stripPayload(d)
+		}
+		return d
+	}
+	var out [][]*spb.AFTOperation
+	switch g.pick(4) {
+	case 0: // held REPLACE, its target deleted, then the dependency arrives
+		e1 := top(ni, spb.AFTOperation_ADD, gA, nil, nil)
+		out = append(out, []*spb.AFTOperation{nh(ni, nhA), grp(ni, gA, spb.AFTOperation_ADD, nhA), e1})
+		gMissing := gA%4 + 1
+		out = append(out, []*spb.AFTOperation{top(ni, spb.AFTOperation_REPLACE, gMissing, nil, e1)})
+		out = append(out, []*spb.AFTOperation{del(e1)})
+		out = append(out, []*spb.AFTOperation{nh(ni, nhB), grp(ni, gMissing, spb.AFTOperation_ADD, nhB)})
+		if g.chance(1, 2) {
+			out = append(out, []*spb.AFTOperation{top(ni, spb.AFTOperation_ADD, gMissing, nil, e1)})
+		}
+	case 1: // retarget a reference to a group in another instance (named / unset), then try the deletes
+		e1 := top(ni, spb.AFTOperation_ADD, gA, nil, nil)
+		out = append(out, []*spb.AFTOperation{nh(ni, nhA), grp(ni, gA, spb.AFTOperation_ADD, nhA), e1})
+		out = append(out, []*spb.AFTOperation{nh(other, nhB), grp(other, gB, spb.AFTOperation_ADD, nhB)})
+		op := []spb.AFTOperation_Operation{spb.AFTOperation_ADD, spb.AFTOperation_REPLACE}[g.pick(2)]
+		out = append(out, []*spb.AFTOperation{top(ni, op, gB, sv(other), e1)})
+		out = append(out, []*spb.AFTOperation{
+			add(ni, &spb.AFTOperation{Op: spb.AFTOperation_DELETE, Entry: &spb.AFTOperation_NextHopGroup{NextHopGroup: &aftpb.Afts_NextHopGroupKey{Id: gA}}}),
+			add(other, &spb.AFTOperation{Op: spb.AFTOperation_DELETE, Entry: &spb.AFTOperation_NextHopGroup{NextHopGroup: &aftpb.Afts_NextHopGroupKey{Id: gB}}}),
+		})
+		if g.chance(1, 2) { // and back, with the instance left unset
+			out = append(out, []*spb.AFTOperation{grp(ni, gA, spb.AFTOperation_ADD, nhA), top(ni, op, gA, nil, e1)})
+		}
+	case 2: // group replaced by one with an overlapping next-hop set, then delete every next-hop
+		out = append(out, []*spb.AFTOperation{nh(ni, nhA), nh(ni, nhB), nh(ni, nhC), grp(ni, gA, spb.AFTOperation_ADD, nhA, nhB)})
+		op := []spb.AFTOperation_Operation{spb.AFTOperation_ADD, spb.AFTOperation_REPLACE}[g.pick(2)]
+		out = append(out, []*spb.AFTOperation{grp(ni, gA, op, nhB, nhC)})
+		var dels []*spb.AFTOperation
+		for _, n := range []uint64{nhA, nhB, nhC} {
+			dels = append(dels, add(ni, &spb.AFTOperation{Op: spb.AFTOperation_DELETE, Entry: &spb.AFTOperation_NextHop{NextHop: &aftpb.Afts_NextHopKey{Index: n}}}))
+		}
+		out = append(out, dels)
+	default: // delete dependencies bottom-up (refused), then top-down, then re-add in reverse order
+		e1 := top(ni, spb.AFTOperation_ADD, gA, nil, nil)
+		out = append(out, []*spb.AFTOperation{nh(ni, nhA), grp(ni, gA, spb.AFTOperation_ADD, nhA), e1})
+		dn := add(ni, &spb.AFTOperation{Op: spb.AFTOperation_DELETE, Entry: &spb.AFTOperation_NextHop{NextHop: &aftpb.Afts_NextHopKey{Index: nhA}}})
+		dg := add(ni, &spb.AFTOperation{Op: spb.AFTOperation_DELETE, Entry: &spb.AFTOperation_NextHopGroup{NextHopGroup: &aftpb.Afts_NextHopGroupKey{Id: gA}}})
+		out = append(out, []*spb.AFTOperation{dn, dg})
+		dn2, dg2 := proto.Clone(dn).(*spb.AFTOperation), proto.Clone(dg).(*spb.AFTOperation)
+		dn2.Id, dg2.Id = g.id(), g.id()
+		out = append(out, []*spb.AFTOperation{del(e1), dg2, dn2})
+		out = append(out, []*spb.AFTOperation{top(ni, spb.AFTOperation_ADD, gA, nil, e1), grp(ni, gA, spb.AFTOperation_ADD, nhA), nh(ni, nhA)})
+	}
+	return out
+}
+
 // invalidOp emits an operation the model classifies as Invalid (must be FAILED, no trace).
 func (g *gen) invalidOp() *spb.AFTOperation {
 	ni := g.ni()
@@ -572,6 +676,12 @@ func genG1(seed uint64, prop string) *Scenario {
 			sess++
 			sc.Steps = append(sc.Steps, Step{T: "handover", Sess: sess, A: g.pick(2)})
 		default:
+			if g.chance(1, 5) {
+				for _, req := range g.shape() {
+					sc.Steps = append(sc.Steps, g.batchStep(sess, req))
+				}
+				continue
+			}
 			var ops []*spb.AFTOperation
 			if g.chance(1, 3) {
 				ops = g.chain()
